@@ -27,14 +27,31 @@ EXAMPLES = [
 
 def calibration():
     ok = True
+    import json
+    import tempfile
+    cal = tempfile.NamedTemporaryFile(prefix='hidsim-cal-', suffix='.jsonl', delete=False)
+    cal.close()
     env = dict(os.environ, PYTHONPATH=os.pathsep.join([os.path.join(ROOT, 'hidsim', 'shim'), ROOT]),
-               PYTHONDONTWRITEBYTECODE='1')
+               PYTHONDONTWRITEBYTECODE='1', HIDSIM_CALIBRATE_REF=cal.name)
     r = subprocess.run([sys.executable, '-m', 'pytest', '-q', '-p', 'no:cacheprovider',
                         os.path.join(REPO, 'tests', 'test_codegen.py')],
                        env=env, stdout=subprocess.PIPE, stderr=subprocess.STDOUT, text=True, cwd=ROOT)
     tail = r.stdout.strip().splitlines()[-1] if r.stdout.strip() else ''
     print('calibration: upstream tests/test_codegen.py on the SVM shim:', tail)
     ok &= r.returncode == 0
+    rows = [json.loads(l) for l in open(cal.name)]
+    os.unlink(cal.name)
+    agree = sum(1 for x in rows if x.get('ok') is True)
+    bad = [x for x in rows if x.get('ok') is False or x.get('error')]
+    skipped = {}
+    for x in rows:
+        if x.get('ok') is None:
+            skipped[x.get('skip')] = skipped.get(x.get('skip'), 0) + 1
+    print(f'calibration: reference interpreter (through hidsim.parse) vs SVM on the same {len(rows)} programs: '
+          f'{agree} identical histories, {len(bad)} different, not comparable: {skipped}')
+    for x in bad[:3]:
+        print('   ', x)
+    ok &= not bad
     sys.path.insert(0, ROOT)
     from hidsim.hidc_api import compile_source
     from hidsim.asm import assemble
@@ -44,8 +61,11 @@ def calibration():
         src = open(os.path.join(REPO, 'examples', name)).read()
         W = 3 if name == 'decimal.hid' else 2
         res = Machine(assemble(compile_source(src, word_size=W), argv), monitor=Monitor(), max_steps=5_000_000).run()
-        good = res.output() == want and res.outcome == outcome and not res.verdicts
-        print(f'calibration: examples/{name} {argv}: {res.outcome} {"ok" if good else "MISMATCH " + repr(res.output())}'
+        from hidsim import parse, refmodel
+        ref = refmodel.run(parse.parse(src), argv, W, uninit_zero=True)
+        ref_good = ref.output() == want and ref.outcome == outcome
+        good = res.output() == want and res.outcome == outcome and not res.verdicts and ref_good
+        print(f'calibration: examples/{name} {argv}: SVM {res.outcome}, reference {ref.outcome} {"ok" if good else "MISMATCH " + repr(res.output()) + " / " + repr(ref.output())}'
               f'{" verdicts " + str(res.verdicts[:1]) if res.verdicts else ""}')
         ok &= good
     return ok
